@@ -86,6 +86,21 @@ class SubResolverError(ResolverError):
     """user-defined subclass of the library's resolver error"""
 
 
+class SizedLazy:
+    """has a length, but iterating it fails with the library's resolver error after the first item"""
+
+    def __init__(self, items, msg):
+        self._items, self._msg = items, msg
+
+    def __len__(self):
+        return len(self._items) + 1
+
+    def __iter__(self):
+        for it in self._items[:1]:
+            yield it
+        raise ResolverError(self._msg)
+
+
 class World:
     """Per-execution state: event log, outcome overrides, the deferral seam."""
 
@@ -117,6 +132,15 @@ def _outcome(world, info, parent, args):
         raise ResolverError("E@" + p, extensions={"code": 7})
     if o == "err-sub":
         raise SubResolverError("S@" + p)
+    if o == "err-lib":
+        # another located library error (not a ResolverError): an unexpected failure like any other exception
+        from py_gql.exc import UnknownEnumValue
+
+        raise UnknownEnumValue("U@" + p)
+    if o == "lazy-sized-err":
+        # a SIZED sequence (cursor / page) that still fails part-way through iteration
+        items = parent.get(info.field_definition.name) if isinstance(parent, dict) else None
+        return SizedLazy(list(items or [])[:2], "Z@" + p)
     if o == "boom":
         raise RuntimeError("B@" + p)
     if o == "null":
